@@ -247,3 +247,23 @@ B("signed-negative-includes-zero", ["C07"],
 N("idiom-signed-ge-zero-early-return", ["C07"],
   [("src/from.rs", "                if value.is_negative() {\n                    Err(match Self::try_from(value as $uint) {\n                        Ok(n) | Err(ToUintError::ValueTooLarge(_, n)) => {\n                            ToUintError::ValueNegative(BITS, n)\n                        }\n                        _ => unreachable!(),\n                    })\n                } else {\n                    Self::try_from(value as $uint)\n                }",
     "                let unsigned = Self::try_from(value as $uint);\n                if value >= 0 {\n                    return unsigned;\n                }\n                match unsigned {\n                    Ok(n) | Err(ToUintError::ValueTooLarge(_, n)) => {\n                        Err(ToUintError::ValueNegative(BITS, n))\n                    }\n                    _ => unreachable!(),\n                }")])
+
+# ---- idioms learnt from refactor round 2
+N("idiom-u128-hoisted-halves", ["C07", "C04"],
+  [("src/from.rs", "        let mut limbs = [0; LIMBS];\n        limbs[0] = value as u64;\n        limbs[1] = (value >> 64) as u64;\n        if Self::LIMBS == 2 && limbs[1] > Self::MASK {\n            limbs[1] &= Self::MASK;",
+    "        let lo = value as u64;\n        let hi = (value >> 64) as u64;\n        let mut limbs = [0; LIMBS];\n        limbs[0] = lo;\n        limbs[1] = hi;\n        if Self::LIMBS == 2 && hi > Self::MASK {\n            limbs[1] = hi & Self::MASK;")])
+B("idiom-u128-hoisted-halves-no-mask", ["C07"],
+  [("src/from.rs", "        let mut limbs = [0; LIMBS];\n        limbs[0] = value as u64;\n        limbs[1] = (value >> 64) as u64;\n        if Self::LIMBS == 2 && limbs[1] > Self::MASK {\n            limbs[1] &= Self::MASK;",
+    "        let lo = value as u64;\n        let hi = (value >> 64) as u64;\n        let mut limbs = [0; LIMBS];\n        limbs[0] = lo;\n        limbs[1] = hi;\n        if Self::LIMBS == 2 && hi > Self::MASK {\n            limbs[1] = hi;")], "from_limbs")
+N("idiom-shr-flag-precomputed-any", ["C05"],
+  [("src/bits.rs", "        let word_bits = 64;\n        let mut r = Self::ZERO;\n        let mut carry = 0;\n        for i in 0..LIMBS - limbs {\n            let x = self.limbs[LIMBS - 1 - i];",
+    "        let dropped_limbs = self.limbs[..limbs].iter().any(|&limb| limb != 0);\n        let word_bits = 64;\n        let mut r = Self::ZERO;\n        let mut carry = 0;\n        for i in 0..LIMBS - limbs {\n            let x = self.limbs[LIMBS - 1 - i];"),
+   ("src/bits.rs", "        let mut overflow = carry != 0;\n        for i in 0..limbs {\n            overflow |= self.limbs[i] != 0;\n        }\n        (r, overflow)", "        (r, dropped_limbs || carry != 0)")])
+N("idiom-fastrlp-split_at-first", ["C17", "C16"],
+  [("src/support/fastrlp_04.rs", "        let bytes = &buf[..header.payload_length];\n        *buf = &buf[header.payload_length..];", "        let (bytes, rest) = buf.split_at(header.payload_length);\n        *buf = rest;"),
+   ("src/support/fastrlp_04.rs", "        if !bytes.is_empty() && bytes[0] == 0 {", "        if bytes.first() == Some(&0) {")])
+B("idiom-fastrlp-split_at-other-bound", ["C17"],
+  [("src/support/fastrlp_04.rs", "        let bytes = &buf[..header.payload_length];\n        *buf = &buf[header.payload_length..];", "        let (bytes, rest) = buf.split_at(header.payload_length + 1);\n        *buf = rest;")], "split_at")
+N("idiom-mul_mod-private-helper", ["C04", "C10"],
+  [("src/modular.rs", "    pub fn mul_mod(self, rhs: Self, mut modulus: Self) -> Self {\n        if modulus.is_zero() {\n            return Self::ZERO;\n        }\n",
+    "    pub fn mul_mod(self, rhs: Self, modulus: Self) -> Self {\n        if modulus == Self::ZERO {\n            Self::ZERO\n        } else {\n            self.mul_mod_nonzero(rhs, modulus)\n        }\n    }\n\n    #[inline]\n    fn mul_mod_nonzero(self, rhs: Self, mut modulus: Self) -> Self {\n")])
